@@ -258,7 +258,7 @@ def check_history(acc):
 
 def shards(tier):
     maxb = 2 if tier == "quick" else 3
-    out = [("libs", ()), ("history", 0), ("same", 0), ("wide", 0)] + [("big", n) for n in (bigdocs.SIZES_QUICK if tier == "quick" else bigdocs.SIZES_THOROUGH)]
+    out = [("libs", ()), ("history", 0), ("same", 0), ("wide", 0)] + [("big", n) for n in (bigdocs.SIZES_QUICK + [1000, 1025, 2049, 4100] if tier == "quick" else bigdocs.SIZES_THOROUGH + [1000, 8200, 16400])]
     for a in NAMES:
         if maxb == 2:
             out.append(("libs", (a,)))
